@@ -24,12 +24,11 @@
 (* statement's inputs; each is a realistic edit the repository's tests do not notice):            *)
 (*   "tie_first"   Resolve assigns sortedDistances[0] even when the two best distances tie        *)
 (*   "circle_noN"  hamming_circle without the N substitution (self-replacement keeps the letter)   *)
-(*   "ext_first"   Lookup consults the extended table before the exact table                       *)
 (*   "idx_line"    ParseLine stores the line number instead of the index column                    *)
 (*   "stale_ext"   AS CODED for two files mapping to one alias: expand() merges into the old        *)
 (*                 extendedBarcodes, entries that became ties stay assigned (observation, see      *)
 (*                 docs/C03.md; outside the statement's "one whitelist per alias")                 *)
-EXTENDS Integers, Sequences, FiniteSets, TLC, Json, Util
+EXTENDS Integers, Sequences, FiniteSets, TLC, Json, Util, BarcodeP
 
 CONSTANTS A,         \* alphabet size (letters 1..A, A = 'N')
           L,         \* barcode length
@@ -40,20 +39,9 @@ CONSTANTS A,         \* alphabet size (letters 1..A, A = 'N')
           Lazy,      \* subset of BOOLEAN
           Variant
 
-None == <<>>
 AllStrings == [1 .. L -> 1 .. A]
-D(a, b) == Cardinality({ i \in 1 .. L : a[i] # b[i] })
 
----------------------------------------------------------------------------------------------------
-(* P-level: the property's definition *)
-
-(* W : function barcode -> index *)
-Nearest(W, k, q) ==
-    LET cand == { b \in DOMAIN W : D(q, b) <= k /\ \A c \in DOMAIN W \ {b} : D(q, c) > D(q, b) }
-    IN IF cand = {} THEN None ELSE LET b == CHOOSE x \in cand : TRUE IN << W[b], b, D(q, b) >>
-
-Tied(W, k, q) == \E b, c \in DOMAIN W : b # c /\ D(q, b) = D(q, c) /\ D(q, b) <= k
-                                        /\ \A e \in DOMAIN W : D(q, e) >= D(q, b)
+(* P-level: None, D, Nearest(W,k,q), Tied(W,k,q) come from BarcodeP.tla (the property's definition) *)
 
 ---------------------------------------------------------------------------------------------------
 (* files *)
@@ -176,9 +164,7 @@ NextFile ==
     /\ UNCHANGED << files, k, lazy, li, idxNotFirst, wl, order, ext, pending, space, ci, want, last >>
 
 (* the two table reads of the lookup *)
-Tables(q) == IF Variant = "ext_first"
-             THEN (IF q \in DOMAIN ext THEN ext[q] ELSE IF q \in DOMAIN wl THEN << wl[q], q, 0 >> ELSE None)
-             ELSE (IF q \in DOMAIN wl THEN << wl[q], q, 0 >> ELSE IF q \in DOMAIN ext THEN ext[q] ELSE None)
+Tables(q) == IF q \in DOMAIN wl THEN << wl[q], q, 0 >> ELSE IF q \in DOMAIN ext THEN ext[q] ELSE None
 
 Lookup(q) ==
     /\ pc = "ready" /\ last = None
